@@ -78,16 +78,16 @@ Section Search.
         * destruct (maxr <=? len (acc ++ [i])) eqn:Ef.
           -- apply N.leb_le in Ef. exists (i + 1).
              rewrite (hits_cons i (i + 1)) by lia. rewrite Hh, hits_empty by lia.
-             repeat split; try lia. right. split; [exact Ef|lia].
+             repeat split; try lia; try (right; split; [exact Ef|lia]).
           -- destruct (IH (i + 1) (acc ++ [i])) as [j [Hj [H1 [H2 H3]]]]; [lia|].
              exists j. rewrite Hj. rewrite (hits_cons i j) by lia. rewrite Hh, <- app_assoc. cbn [app].
-             repeat split; try lia.
-             rewrite <- app_assoc in H3. cbn [app] in H3. destruct H3 as [H3|[H3 H4]]; [left; exact H3|right; split; [exact H3|lia]].
+             rewrite <- app_assoc in H3. cbn [app] in H3.
+             repeat split; try lia; try (destruct H3 as [H3|[H3 H4]]; [left; exact H3|right; split; [exact H3|lia]]).
         * destruct (IH (i + 1) acc) as [j [Hj [H1 [H2 H3]]]]; [lia|].
           exists j. rewrite Hj.
           destruct (N.eq_dec j i) as [->|Hn]; [lia|].
           rewrite (hits_cons i j) by lia. rewrite Hh.
-          repeat split; try lia. destruct H3 as [H3|[H3 H4]]; [left; exact H3|right; split; [exact H3|lia]].
+          repeat split; try lia; try (destruct H3 as [H3|[H3 H4]]; [left; exact H3|right; split; [exact H3|lia]]).
       + apply N.ltb_ge in El. exists i. rewrite hits_empty, app_nil_r by lia. repeat split; try lia; try (left; lia).
   Qed.
 
@@ -155,7 +155,8 @@ Section SearchRefuted.
 
   Lemma search_prefix_skipped_a_position :
     stream_search_prefix d_all d_filtered 0 1 d_fs = Ok ([0], Some 2) /\
-    stream_search_prefix d_all d_filtered 2 1 d_fs = Ok ([2], None) /\
+    stream_search_prefix d_all d_filtered 2 1 d_fs = Ok ([2], Some 4) /\
+    stream_search_prefix d_all d_filtered 4 1 d_fs = Ok ([], None) /\
     hits d_all d_filtered d_fs 0 4 = [0; 1; 2; 3].
   Proof. repeat split; vm_compute; reflexivity. Qed.
 
@@ -164,3 +165,377 @@ Section SearchRefuted.
     hits d_all d_unfiltered d_fs 0 4 = [0; 1; 2; 3].
   Proof. repeat split; vm_compute; reflexivity. Qed.
 End SearchRefuted.
+
+(* every state that satisfies the index invariant has a message at every stream position *)
+Section StreamOk.
+  Context {M : Type}.
+  Lemma inv_stream_ok (all : list M) (s : sctx M) : inv all s -> stream_ok all s.
+  Proof.
+    intros [Hl [Ha Hna]] i Hi. unfold stream_len in Hi. unfold stream_msg.
+    destruct (s_filters_active s) eqn:Ea.
+    - destruct (nthN_lt_some _ _ Hi) as [p Hp]. unfold nth_chk at 1. rewrite Hp. cbn [bind].
+      assert (Hin : In p (s_filtered s)) by (eapply nth_error_In; exact Hp).
+      rewrite (Ha eq_refl) in Hin. apply matching_bounds in Hin. rewrite len_firstN in Hin.
+      destruct (nthN_lt_some all p) as [m Hm]; [lia|]. exists m. unfold nth_chk. rewrite Hm. reflexivity.
+    - cbn [bind]. destruct (nthN_lt_some all i Hi) as [m Hm]. exists m. unfold nth_chk. rewrite Hm. reflexivity.
+  Qed.
+End StreamOk.
+
+(* ------------------------------------------------------------------ std binary search *)
+Section BSearch.
+  Context {A : Type}.
+  Variable cmp : A -> comparison.
+
+  (* Less* Equal* Greater* *)
+  Definition cle (x y : comparison) : bool :=
+    match x, y with
+    | Lt, _ => true
+    | Eq, Lt => false
+    | Eq, _ => true
+    | Gt, Gt => true
+    | Gt, _ => false
+    end.
+  Definition partitioned (l : list A) : Prop :=
+    forall i j a b, i <= j -> nthN l i = Some a -> nthN l j = Some b -> cle (cmp a) (cmp b) = true.
+
+  Lemma cmp_at_some l i a : nthN l i = Some a -> cmp_at cmp l i = cmp a.
+  Proof. intros H. unfold cmp_at. rewrite H. reflexivity. Qed.
+
+  Lemma bs_loop_inv l : partitioned l -> forall fuel size base,
+    (N.to_nat size <= fuel)%nat -> 1 <= size -> base + size <= len l ->
+    (base = 0 \/ cmp_at cmp l base <> Gt) ->
+    (forall j, base + size <= j -> j < len l -> cmp_at cmp l j = Gt) ->
+    let b := bs_loop fuel cmp l size base in
+    b < len l /\ (b = 0 \/ cmp_at cmp l b <> Gt) /\ (forall j, b + 1 <= j -> j < len l -> cmp_at cmp l j = Gt).
+  Proof.
+    intros Hp. induction fuel as [|f IH]; intros size base Hf H1 Hb Hlo Hhi; cbv zeta; [lia|].
+    cbn [bs_loop]. destruct (1 <? size) eqn:E1.
+    - apply N.ltb_lt in E1.
+      assert (Hh : 1 <= size / 2) by (apply N.div_le_lower_bound; lia).
+      assert (Hh2 : 2 * (size / 2) <= size) by (apply N.mul_div_le; lia).
+      set (half := size / 2) in *. set (mid := base + half).
+      assert (Hmid : mid < len l) by (unfold mid; lia).
+      destruct (nthN_lt_some l mid Hmid) as [am Ham].
+      destruct (cmp_at cmp l mid) eqn:Ec.
+      + apply IH; try lia.
+        * right. fold mid. rewrite Ec. discriminate.
+        * intros j Hj Hjl. apply Hhi; [unfold mid in Hj; lia|exact Hjl].
+      + apply IH; try lia.
+        * right. fold mid. rewrite Ec. discriminate.
+        * intros j Hj Hjl. apply Hhi; [unfold mid in Hj; lia|exact Hjl].
+      + apply IH; try lia; [exact Hlo|].
+        intros j Hj Hjl. destruct (nthN_lt_some l j Hjl) as [aj Haj].
+        rewrite (cmp_at_some _ _ _ Haj). rewrite (cmp_at_some _ _ _ Ham) in Ec.
+        assert (Hle : mid <= j) by (unfold mid; lia).
+        pose proof (Hp mid j am aj Hle Ham Haj) as Hc. rewrite Ec in Hc. destruct (cmp aj); [discriminate|discriminate|reflexivity].
+    - apply N.ltb_ge in E1. assert (size = 1) by lia. subst size.
+      split; [lia|]. split; [exact Hlo|]. intros j Hj Hjl. apply Hhi; [lia|exact Hjl].
+  Qed.
+
+  (* the toolchain's algorithm meets the documented contract *)
+  Theorem std_bsearch_valid l : partitioned l -> bsearch_valid cmp l (std_bsearch cmp l).
+  Proof.
+    intros Hp. unfold std_bsearch. destruct l as [|a0 r] eqn:El.
+    - cbn [bsearch_valid]. split; [apply N.le_0_l|]. split; intros j a _ H; unfold nthN in H; destruct (N.to_nat j); discriminate.
+    - rewrite <- El in *. assert (Hl1 : 1 <= len l) by (rewrite El, len_cons; lia).
+      assert (P1 : (N.to_nat (len l) <= length l)%nat) by (unfold len; lia).
+      assert (P2 : 0 + len l <= len l) by lia.
+      assert (P3 : 0 = 0 \/ cmp_at cmp l 0 <> Gt) by (left; reflexivity).
+      assert (P4 : forall j, 0 + len l <= j -> j < len l -> cmp_at cmp l j = Gt) by (intros; lia).
+      destruct (bs_loop_inv l Hp (length l) (len l) 0 P1 Hl1 P2 P3 P4) as [Hb [Hlo Hhi]].
+      cbv zeta in *. set (b := bs_loop (length l) cmp l (len l) 0) in *.
+      destruct (nthN_lt_some l b Hb) as [ab Hab]. rewrite (cmp_at_some _ _ _ Hab) in *.
+      destruct (cmp ab) eqn:Ec; cbn [bsearch_valid].
+      + exists ab. auto.
+      + split; [lia|]. split.
+        * intros j a Hj Ha. assert (Hle : j <= b) by lia.
+          pose proof (Hp j b a ab Hle Ha Hab) as Hc. rewrite Ec in Hc. destruct (cmp a); [discriminate|reflexivity|discriminate].
+        * intros j a Hj Ha. rewrite <- (cmp_at_some _ _ _ Ha). apply Hhi; [lia|]. eapply nthN_some_lt; exact Ha.
+      + destruct Hlo as [Hlo|Hlo]; [|congruence]. rewrite Hlo in *. split; [lia|]. split.
+        * intros j a Hj; lia.
+        * intros j a Hj Ha. pose proof (Hp 0 j ab a Hj Hab Ha) as Hc. rewrite Ec in Hc. destruct (cmp a); [discriminate|discriminate|reflexivity].
+  Qed.
+
+  (* with the current algorithm an Ok result is the LAST of several equal elements (why the lookups that
+     used binary_search_by on message times were wrong); stated for the documentation of the repaired defect *)
+End BSearch.
+
+(* counting: if the elements before position i satisfy P and those from i on do not, i elements satisfy P *)
+Lemma count_split {A} (P : A -> bool) (l : list A) : forall i,
+  i <= len l ->
+  (forall j a, j < i -> nthN l j = Some a -> P a = true) ->
+  (forall j a, i <= j -> nthN l j = Some a -> P a = false) ->
+  len (filter P l) = i.
+Proof.
+  induction l as [|x r IH]; intros i Hi Ht Hf.
+  - rewrite len_nil in Hi. cbn [filter]. rewrite len_nil. lia.
+  - rewrite len_cons in Hi. cbn [filter]. destruct (N.eq_dec i 0) as [->|Hn].
+    + rewrite (Hf 0 x (N.le_refl _) (nthN_cons_0 _ _)).
+      apply IH; [lia| |].
+      * intros j a Hj; lia.
+      * intros j a _ Ha. apply (Hf (j + 1)); [lia|]. rewrite nthN_cons_succ. exact Ha.
+    + assert (H0 : 0 < i) by lia. rewrite (Ht 0 x H0 (nthN_cons_0 _ _)). rewrite len_cons.
+      rewrite (IH (i - 1)); [lia|lia| |].
+      * intros j a Hj Ha. apply (Ht (j + 1)); [lia|]. rewrite nthN_cons_succ. exact Ha.
+      * intros j a Hj Ha. apply (Hf (j + 1)); [lia|]. rewrite nthN_cons_succ. exact Ha.
+Qed.
+
+(* any result allowed by the contract, unwrapped with unwrap_or_else(|e| e), on a strictly increasing list of
+   numbers: the number of elements below the key = the position of the first element not below it *)
+Definition increasing (l : list N) : Prop :=
+  forall i j a b, i < j -> nthN l i = Some a -> nthN l j = Some b -> a < b.
+
+Lemma bsearch_increasing_pos (l : list N) key r :
+  increasing l -> bsearch_valid (fun f => N.compare f key) l r ->
+  bres_idx r = len (filter (fun f => f <? key) l).
+Proof.
+  intros Hinc Hv. symmetry. destruct r as [i|i]; cbn [bres_idx bsearch_valid] in *.
+  - destruct Hv as [a [Ha Hc]]. apply N.compare_eq in Hc. subst a.
+    apply count_split.
+    + apply nthN_some_lt in Ha. lia.
+    + intros j a Hj Hja. apply N.ltb_lt. exact (Hinc j i a key Hj Hja Ha).
+    + intros j a Hj Hja. apply N.ltb_ge. destruct (N.eq_dec i j) as [->|Hn]; [rewrite Ha in Hja; inversion Hja; lia|].
+      assert (Hlt : i < j) by lia. pose proof (Hinc i j key a Hlt Ha Hja). lia.
+  - destruct Hv as [Hi [Hlo Hhi]]. apply count_split; [exact Hi| |].
+    + intros j a Hj Hja. apply N.ltb_lt. pose proof (Hlo j a Hj Hja) as Hc. apply N.compare_lt_iff in Hc. exact Hc.
+    + intros j a Hj Hja. apply N.ltb_ge. pose proof (Hhi j a Hj Hja) as Hc. apply N.compare_gt_iff in Hc. lia.
+Qed.
+
+Lemma increasing_partitioned (l : list N) key : increasing l -> partitioned (fun f => N.compare f key) l.
+Proof.
+  intros Hinc i j a b Hij Ha Hb.
+  assert (Hab : a <= b).
+  { destruct (N.eq_dec i j) as [->|Hn]; [rewrite Ha in Hb; inversion Hb; lia|].
+    assert (Hlt : i < j) by lia. pose proof (Hinc i j a b Hlt Ha Hb). lia. }
+  destruct (N.compare_spec a key), (N.compare_spec b key); cbn; try reflexivity; lia.
+Qed.
+
+(* ------------------------------------------------------------------ the lookups *)
+Lemma increasing_cons x (l : list N) :
+  (forall a, In a l -> x < a) -> increasing l -> increasing (x :: l).
+Proof.
+  intros Hx Hl i j a b Hij Ha Hb.
+  destruct (N.eq_dec i 0) as [->|Hi].
+  - rewrite nthN_cons_0 in Ha. inversion Ha; subst a.
+    replace j with ((j - 1) + 1) in Hb by lia. rewrite nthN_cons_succ in Hb.
+    apply Hx. eapply nth_error_In. exact Hb.
+  - replace i with ((i - 1) + 1) in Ha by lia. replace j with ((j - 1) + 1) in Hb by lia.
+    rewrite nthN_cons_succ in Ha, Hb. apply (Hl (i - 1) (j - 1)); [lia|exact Ha|exact Hb].
+Qed.
+
+Lemma matching_increasing {M} (fs : fset M) l : forall off, increasing (matching_idxs fs l off).
+Proof.
+  induction l as [|m r IH]; intros off; cbn [matching_idxs].
+  - intros i j a b _ Ha. unfold nthN in Ha. destruct (N.to_nat i); discriminate.
+  - destruct (match_filters fs m); [|apply IH].
+    apply increasing_cons; [|apply IH]. intros a Ha. apply matching_bounds in Ha. lia.
+Qed.
+
+(* a contract-level result on an increasing list, unwrapped: the first position whose element is not below the key *)
+Lemma valid_first_not_before (l : list N) key r :
+  increasing l -> bsearch_valid (fun f => N.compare f key) l r ->
+  let p := bres_idx r in
+  p <= len l /\
+  (forall q a, q < p -> nthN l q = Some a -> a < key) /\
+  (forall q a, p <= q -> nthN l q = Some a -> key <= a).
+Proof.
+  intros Hinc Hv. destruct r as [i|i]; cbn [bres_idx bsearch_valid] in *; cbv zeta.
+  - destruct Hv as [a [Ha Hc]]. apply N.compare_eq in Hc. subst a.
+    split; [apply nthN_some_lt in Ha; lia|]. split.
+    + intros q a Hq Hqa. exact (Hinc q i a key Hq Hqa Ha).
+    + intros q a Hq Hqa. destruct (N.eq_dec i q) as [->|Hn]; [rewrite Ha in Hqa; inversion Hqa; lia|].
+      assert (Hlt : i < q) by lia. pose proof (Hinc i q key a Hlt Ha Hqa). lia.
+  - destruct Hv as [Hi [Hlo Hhi]]. split; [exact Hi|]. split.
+    + intros q a Hq Hqa. pose proof (Hlo q a Hq Hqa) as Hc. apply N.compare_lt_iff in Hc. exact Hc.
+    + intros q a Hq Hqa. pose proof (Hhi q a Hq Hqa) as Hc. apply N.compare_gt_iff in Hc. lia.
+Qed.
+
+Section Lookups.
+  Context {M : Type}.
+  Variable time_of index_of : M -> N.
+  Variable all : list M.
+  Variable s : sctx M.
+  Hypothesis Hinv : inv all s.
+  Let slen := stream_len s (len all).
+
+  (* the all_msgs position of stream position q *)
+  Definition all_pos (q : N) : option N :=
+    if s_filters_active s then nthN (s_filtered s) q else if q <? len all then Some q else None.
+
+  Lemma stream_msg_all_pos q m : stream_msg all s q = Ok m -> exists a, all_pos q = Some a /\ nthN all a = Some m.
+  Proof.
+    unfold stream_msg, all_pos. destruct (s_filters_active s).
+    - unfold nth_chk at 1. destruct (nthN (s_filtered s) q) as [a|]; cbn [bind]; [|discriminate].
+      unfold nth_chk. destruct (nthN all a) as [m'|] eqn:E; [|discriminate]. intros H; inversion H; subst. eauto.
+    - cbn [bind]. unfold nth_chk. destruct (nthN all q) as [m'|] eqn:E; [|discriminate]. intros H; inversion H; subst.
+      exists q. apply nthN_some_lt in E. apply N.ltb_lt in E. rewrite E. auto.
+  Qed.
+
+  Lemma filtered_increasing : s_filters_active s = true -> increasing (s_filtered s).
+  Proof. intros E. destruct Hinv as [_ [Ha _]]. rewrite (Ha E). apply matching_increasing. Qed.
+
+  (* a binary search that keeps the contract (std's does: std_bsearch_valid) *)
+  Definition keeps_contract (bs : (N -> comparison) -> list N -> bres) : Prop :=
+    forall cmp l, partitioned cmp l -> bsearch_valid cmp l (bs cmp l).
+
+  (* position in the stream of the first stream message that is not before all_msgs position ai,
+     for ANY result the contract of binary_search allows *)
+  Theorem stream_pos_first_not_before bs ai : keeps_contract bs -> ai <= len all ->
+    let p := stream_pos_with bs s ai in
+    p <= slen /\
+    (forall q a, q < p -> all_pos q = Some a -> a < ai) /\
+    (forall q a, p <= q -> all_pos q = Some a -> ai <= a).
+  Proof.
+    intros Hbs Hai. cbv zeta. unfold stream_pos_with, all_pos, slen, stream_len.
+    destruct (s_filters_active s) eqn:Ea.
+    - pose proof (filtered_increasing eq_refl) as Hinc.
+      exact (valid_first_not_before _ ai _ Hinc (Hbs _ _ (increasing_partitioned _ ai Hinc))).
+    - split; [exact Hai|]. split.
+      + intros q a Hq H. destruct (q <? len all); inversion H; subst; exact Hq.
+      + intros q a Hq H. destruct (q <? len all); inversion H; subst; exact Hq.
+  Qed.
+
+  Lemma std_keeps_contract : keeps_contract (@std_bsearch N).
+  Proof. intros cmp l Hp. apply std_bsearch_valid. exact Hp. Qed.
+
+  (* --- time lookup: messages ordered by time --- *)
+  Definition time_ordered : Prop :=
+    forall i j a b, i <= j -> nthN all i = Some a -> nthN all j = Some b -> time_of a <= time_of b.
+
+  Lemma partition_point_time t : time_ordered ->
+    let ai := partition_point (fun m => time_of m <? t) all in
+    ai <= len all /\
+    (forall j m, j < ai -> nthN all j = Some m -> time_of m < t) /\
+    (forall j m, ai <= j -> nthN all j = Some m -> t <= time_of m).
+  Proof.
+    intros Hord. cbv zeta. unfold partition_point.
+    set (cmp := fun a : M => if time_of a <? t then Lt else Gt).
+    assert (Hp : partitioned cmp all).
+    { intros i j a b Hij Ha Hb. pose proof (Hord i j a b Hij Ha Hb) as Hle. unfold cmp.
+      destruct (time_of a <? t) eqn:E1, (time_of b <? t) eqn:E2; cbn; try reflexivity.
+      apply N.ltb_ge in E1. apply N.ltb_lt in E2. lia. }
+    pose proof (std_bsearch_valid cmp all Hp) as Hv.
+    destruct (std_bsearch cmp all) as [i|i]; cbn [bres_idx bsearch_valid] in *.
+    - destruct Hv as [a [_ Hc]]. unfold cmp in Hc. destruct (time_of a <? t); discriminate.
+    - destruct Hv as [Hi [Hlo Hhi]]. split; [exact Hi|]. split.
+      + intros j m Hj Hm. pose proof (Hlo j m Hj Hm) as Hc. unfold cmp in Hc.
+        destruct (time_of m <? t) eqn:E; [apply N.ltb_lt in E; exact E|discriminate].
+      + intros j m Hj Hm. pose proof (Hhi j m Hj Hm) as Hc. unfold cmp in Hc.
+        destruct (time_of m <? t) eqn:E; [discriminate|apply N.ltb_ge in E; exact E].
+  Qed.
+
+  Theorem lookup_time_first_not_before t : time_ordered ->
+    let p := lookup_time time_of all s t in
+    p <= slen /\
+    (forall q m, q < p -> stream_msg all s q = Ok m -> time_of m < t) /\
+    (forall q m, p <= q -> stream_msg all s q = Ok m -> t <= time_of m).
+  Proof.
+    intros Hord. cbv zeta. unfold lookup_time, stream_pos.
+    destruct (partition_point_time t Hord) as [Hai [Hlo Hhi]]. cbv zeta in *.
+    set (ai := partition_point (fun m => time_of m <? t) all) in *.
+    destruct (stream_pos_first_not_before _ ai std_keeps_contract Hai) as [Hp [Hb Ha]]. cbv zeta in *.
+    split; [exact Hp|]. split.
+    - intros q m Hq Hm. destruct (stream_msg_all_pos q m Hm) as [a [Hqa Ham]].
+      exact (Hlo a m (Hb q a Hq Hqa) Ham).
+    - intros q m Hq Hm. destruct (stream_msg_all_pos q m Hm) as [a [Hqa Ham]].
+      exact (Hhi a m (Ha q a Hq Hqa) Ham).
+  Qed.
+
+  (* --- index lookup, file order (indices strictly increasing along all_msgs) --- *)
+  Definition index_increasing : Prop :=
+    forall i j a b, i < j -> nthN all i = Some a -> nthN all j = Some b -> index_of a < index_of b.
+
+  Theorem lookup_index_first_not_before idx : index_increasing ->
+    match lookup_index index_of all s idx with
+    | Some p =>
+        exists ai m, nthN all ai = Some m /\ index_of m = idx /\
+          p <= slen /\
+          (forall q a, q < p -> all_pos q = Some a -> a < ai) /\
+          (forall q a, p <= q -> all_pos q = Some a -> ai <= a)
+    | None => forall j m, nthN all j = Some m -> index_of m <> idx
+    end.
+  Proof.
+    intros Hinc. unfold lookup_index.
+    set (cmp := fun m : M => N.compare (index_of m) idx).
+    assert (Hp : partitioned cmp all).
+    { intros i j a b Hij Ha Hb. unfold cmp.
+      assert (Hab : index_of a <= index_of b).
+      { destruct (N.eq_dec i j) as [->|Hn]; [rewrite Ha in Hb; inversion Hb; lia|].
+        assert (Hlt : i < j) by lia. pose proof (Hinc i j a b Hlt Ha Hb). lia. }
+      destruct (N.compare_spec (index_of a) idx), (N.compare_spec (index_of b) idx); cbn; try reflexivity; lia. }
+    pose proof (std_bsearch_valid cmp all Hp) as Hv.
+    destruct (std_bsearch cmp all) as [ai|i]; cbn [bsearch_valid] in Hv.
+    - destruct Hv as [m [Hm Hc]]. unfold cmp in Hc. apply N.compare_eq in Hc.
+      exists ai, m. split; [exact Hm|]. split; [exact Hc|].
+      apply (stream_pos_first_not_before _ ai std_keeps_contract). apply nthN_some_lt in Hm. lia.
+    - destruct Hv as [Hi [Hlo Hhi]]. intros j m Hm He.
+      destruct (N.lt_ge_cases j i) as [Hj|Hj].
+      + pose proof (Hlo j m Hj Hm) as Hc. unfold cmp in Hc. rewrite He, N.compare_refl in Hc. discriminate.
+      + pose proof (Hhi j m Hj Hm) as Hc. unfold cmp in Hc. rewrite He, N.compare_refl in Hc. discriminate.
+  Qed.
+
+  (* --- index lookup, file sorted by time: the first message with that index is found linearly --- *)
+  Lemma find_index_spec idx : forall l pos,
+    match find_index index_of l idx pos with
+    | Some (ai, m) => pos <= ai /\ nthN l (ai - pos) = Some m /\ index_of m = idx /\
+                      (forall j m', j < ai - pos -> nthN l j = Some m' -> index_of m' <> idx)
+    | None => forall j m', nthN l j = Some m' -> index_of m' <> idx
+    end.
+  Proof.
+    induction l as [|x r IH]; intros pos; cbn [find_index].
+    - intros j m' H. unfold nthN in H. destruct (N.to_nat j); discriminate.
+    - destruct (index_of x =? idx) eqn:E.
+      + apply N.eqb_eq in E. rewrite N.sub_diag. split; [lia|]. split; [reflexivity|]. split; [exact E|].
+        intros j m' Hj; lia.
+      + apply N.eqb_neq in E. specialize (IH (pos + 1)).
+        destruct (find_index index_of r idx (pos + 1)) as [[ai m]|].
+        * destruct IH as [H1 [H2 [H3 H4]]]. split; [lia|].
+          replace (ai - pos) with ((ai - (pos + 1)) + 1) by lia. rewrite nthN_cons_succ.
+          split; [exact H2|]. split; [exact H3|].
+          intros j m' Hj Hm'. destruct (N.eq_dec j 0) as [->|Hn].
+          -- rewrite nthN_cons_0 in Hm'. inversion Hm'; subst; exact E.
+          -- replace j with ((j - 1) + 1) in Hm' by lia. rewrite nthN_cons_succ in Hm'.
+             apply (H4 (j - 1)); [lia|exact Hm'].
+        * intros j m' Hm'. destruct (N.eq_dec j 0) as [->|Hn].
+          -- rewrite nthN_cons_0 in Hm'. inversion Hm'; subst; exact E.
+          -- replace j with ((j - 1) + 1) in Hm' by lia. rewrite nthN_cons_succ in Hm'. exact (IH (j - 1) m' Hm').
+  Qed.
+
+  Theorem lookup_index_sorted_first_not_before idx :
+    match lookup_index_sorted index_of all s idx with
+    | Some p =>
+        exists ai m, nthN all ai = Some m /\ index_of m = idx /\
+          (forall j m', j < ai -> nthN all j = Some m' -> index_of m' <> idx) /\
+          p <= slen /\
+          (forall q a, q < p -> all_pos q = Some a -> a < ai) /\
+          (forall q a, p <= q -> all_pos q = Some a -> ai <= a)
+    | None => forall j m, nthN all j = Some m -> index_of m <> idx
+    end.
+  Proof.
+    unfold lookup_index_sorted. pose proof (find_index_spec idx all 0) as Hf.
+    destruct (find_index index_of all idx 0) as [[ai m]|]; [|exact Hf].
+    destruct Hf as [_ [H2 [H3 H4]]]. rewrite N.sub_0_r in *.
+    exists ai, m. split; [exact H2|]. split; [exact H3|]. split; [exact H4|].
+    apply (stream_pos_first_not_before _ ai std_keeps_contract). apply nthN_some_lt in H2. lia.
+  Qed.
+End Lookups.
+
+(* the lookups before the repairs did not have the property (checked documentation of the defects):
+   three messages with the same time, the lookup by that time answered the LAST of them; an index lookup in a
+   stream without filters answered 0 *)
+Section LookupRefuted.
+  Definition t_all : list (N * N) := [(1, 0); (2, 1); (2, 2); (2, 3); (3, 4)].   (* (time, index) *)
+  Definition t_s : sctx (N * N) := set_progress (new_ctx 1 true true fs_none 0 10) [] 5.
+  Lemma lookup_time_prefix_returned_last_of_equal :
+    lookup_time_prefix fst t_all t_s 2 = 3 /\ lookup_time fst t_all t_s 2 = 1.
+  Proof. split; vm_compute; reflexivity. Qed.
+  Lemma lookup_index_prefix_unfiltered_returned_0 :
+    lookup_index_prefix snd t_all t_s 3 = Some 0 /\ lookup_index snd t_all t_s 3 = Some 3.
+  Proof. split; vm_compute; reflexivity. Qed.
+  (* a stream over the messages with time 2, sorted file: the message with index 1 is at stream position 0 *)
+  Definition t_fs : fset (N * N) := {| f_pos := [fun m => fst m =? 2]; f_neg := []; f_ev := [] |}.
+  Definition t_sf : sctx (N * N) := set_progress (new_ctx 1 true true t_fs 0 10) [1; 2; 3] 5.
+  Lemma lookup_index_sorted_prefix_returned_last_of_equal :
+    lookup_index_sorted_prefix fst snd t_all t_sf 1 = Some 2 /\ lookup_index_sorted snd t_all t_sf 1 = Some 0.
+  Proof. split; vm_compute; reflexivity. Qed.
+End LookupRefuted.
